@@ -69,6 +69,10 @@ class C17(L1Prop):
                 ops += [f"walk {c}", f"{at()} GET snap - hyph={c} absent e", f"{at()} POST av hyph=latest:{c} hyph={c} history b:5"]
             if held:
                 ops.append("unhold")
+            if k % 4 == 2:
+                # first of all: one of several listen addresses is taken by another process
+                nn = r.choice([2, 3])
+                ops.insert(0, f"bootocc {nn} {r.randrange(nn)} {r.choice(['flag', 'flags', 'env'])}")
             out.append(Case(f"c17-{k}", ops, {"boot": boot, "nl": nl, "allow": allow, "versions": vsrc, "days": ysrc}, mode="bin"))
         return out
     def relevant(self, i, trace):
@@ -112,6 +116,10 @@ class C17(L1Prop):
                                 fails.append(f"op {i}: urgency {got}, expected {sorted(want)} for configured snapshot-versions={versions} snapshot-days={days} (record {d.snap})")
                 if r.cc != "1":
                     fails.append(f"op {i}: response without Cache-Control no-store")
+            if o.startswith("mark bootocc"):
+                kv = dict(x.split("=") for x in o.split()[2:])
+                if kv["exited"] != "1":
+                    fails.append(f"one of the {kv['n']} configured listen addresses could not be bound, yet the server kept running and served on {kv['served']} of them: it does not serve on every listen address given")
             if o.startswith("mark datadir"):
                 kv = dict(x.split("=") for x in o.split()[2:])
                 if kv.get("dbfile") != "1" or kv.get("extra") != "0":
